@@ -258,6 +258,19 @@ def expected_strings(ast):
     return out
 
 
+def scoped_py(ast):
+    """restatement of Ast.scoped (Model/ManScoped.lean): a list item only below a list; dropped nodes are not looked into"""
+    def go(j, in_list):
+        t = j["t"]
+        if t in ("text", "code", "heading", "drop", "targetId", "dirArg"):
+            return True
+        if t == "listItem" and not in_list:
+            return False
+        inl = True if t == "list" else in_list
+        return all(go(c, inl) for c in j.get("term", [])) and all(go(c, inl) for c in j.get("c", []))
+    return go(ast, False)
+
+
 def wellformed(ast):
     """pages the parser can build: sections have a heading, list items sit in a list"""
     def go(j, in_list):
@@ -496,11 +509,25 @@ class C19(core.PropertyCheck):
         for node, key in strings_of(case["ast"]):
             chars.update(node[key])
         up = [[c, c.upper()] for c in sorted(chars) if c.upper() != c]
-        return {"op": "c19.render", "name": case["name"], "section": str(case["section"]), "up": up, "ast": case["ast"]}
+        # strings escaped by the REAL troff_escape, to be read back by the model's `unesc` (theorem escape_roundtrip)
+        from snooty.builders.man import troff_escape
+        plain = sorted({node[key] for node, key in strings_of(case["ast"])})[:12]
+        case["_plain"] = plain
+        return {"op": "c19.render", "name": case["name"], "section": str(case["section"]), "up": up, "ast": case["ast"],
+                "escaped": [troff_escape(v) for v in plain]}
 
     def compare(self, case, model, impl):
         if model.get("exc") != impl["exc"]:
             return f"exception differs: model {model.get('exc')} impl {impl['exc']}"
+        if model.get("scoped") and impl["exc"] is not None:
+            return f"render_total: the page is scoped (list items only below lists) but the implementation raised {impl['exc']}"
+        if model.get("scoped") != scoped_py(case["ast"]):
+            return f"Ast.scoped differs from its Python restatement: model {model.get('scoped')}"
+        plain = case.get("_plain", [])
+        if model.get("unesc") is not None and list(model["unesc"]) != list(plain):
+            k = next(i for i, (a, b) in enumerate(zip(model["unesc"], plain)) if a != b) if len(model["unesc"]) == len(plain) else -1
+            return (f"escape_roundtrip: the real troff_escape output is not read back to the text by the model's unesc: "
+                    f"text {plain[k]!r} -> {model['unesc'][k]!r}")
         if impl["exc"] is None and model["out"] != impl["out"]:
             a, b = model["out"], impl["out"]
             i = next((k for k in range(min(len(a), len(b))) if a[k] != b[k]), min(len(a), len(b)))
